@@ -305,6 +305,7 @@ def main():
             "leanchecker": leanchecker,
             "broken": broken,
             "notes": res.notes,
+            "advisories_outside_property_text": res.advisories[:10],
             "status": status,
         },
         "assumptions": spec.get("assumptions", []),
@@ -313,6 +314,8 @@ def main():
     }
     jdump(evidence, os.path.join(VERIF, "evidence", "%s.json" % prop))
 
+    for a in res.advisories[:5]:
+        print("ADVISORY (outside the text of %s, does not affect the result): %s" % (prop, str(a.get("what"))[:300]))
     if harness_error is not None and not new_failures:
         print(harness_error)
         print("infrastructure: harness crashed")
